@@ -22,7 +22,7 @@ func init() {
 }
 
 var c04Patterns = []string{"equal", "all-below", "sgx0-above", "sgx15-above", "pce-above", "tdx0-above", "tdx1-above", "tdx2-above", "tdx15-above", "sgx0-below+sgx15-above", "tdx2-below+tdx15-above", "sgx-all-below+pce-above",
-	"sgx7-mid-above", "tdx9-mid-above"}
+	"sgx7-mid-above", "tdx9-mid-above", "all-far-below"}
 
 // c04Level builds a level from a comparison pattern relative to the platform.
 func c04Level(p world.Platform, tee []byte, pattern int, status string) world.Level {
@@ -73,6 +73,26 @@ func c04Level(p world.Platform, tee []byte, pattern int, status string) world.Le
 		sgx[7]++
 	case 13:
 		tdx[9]++
+	case 14: // every component far below the platform's (totals, not only components, differ a lot)
+		for i := range sgx {
+			if sgx[i] >= 10 {
+				sgx[i] -= 10
+			} else {
+				sgx[i] = 0
+			}
+		}
+		for i := range tdx {
+			if i != 1 && tdx[i] >= 10 {
+				tdx[i] -= 10
+			} else if i != 1 {
+				tdx[i] = 0
+			}
+		}
+		if pce >= 10 {
+			pce -= 10
+		} else {
+			pce = 0
+		}
 	}
 	return world.Level{Tcb: world.Tcb{Sgx: world.CompsOf(sgx), Pcesvn: world.IntP(pce), Tdx: world.CompsOf(tdx)}, TcbDate: "2029-06-01T00:00:00Z", TcbStatus: status}
 }
@@ -83,7 +103,7 @@ func runC04(r *mc.Run) {
 	// compared with the components
 	// quotes 8 and 9: the PCK certificate lists its 18 TCB elements in reversed / rotated order (values are bound to
 	// their object identifiers, not to positions)
-	svn1s := []byte{0, 1, 3, 0x0a, 0, 0x83, 0, 3, 0, 3}
+	svn1s := []byte{0, 1, 3, 0x0a, 0, 0x83, 0, 3, 0, 3, 0, 3}
 	// one quote per TEE_TCB_SVN[1] value (everything else shared)
 	type qv struct {
 		w   *world.World
@@ -109,6 +129,10 @@ func runC04(r *mc.Run) {
 				w.Plat.TcbOrder = append(w.Plat.TcbOrder, (k+7)%18)
 			}
 		}
+		if qn == 10 || qn == 11 {
+			// component SVNs that add up to more than one byte holds (276), and a TEE TCB SVN that does too
+			w.Plat.CPUSVN = [16]byte{130, 130, 5, 5, 6, 0, 0, 0, 0, 0, 0, 0, 0, 0, 0, 0}
+		}
 		if high {
 			w.Plat.CPUSVN = [16]byte{0x85, 0xfe, 0x80, 0x81, 0x90, 0xa0, 0xb0, 0xc0, 0xd0, 0xe0, 0xf0, 0x88, 0x99, 0xaa, 0xbb, 0x84}
 			w.Plat.PCESVN = 0x8005
@@ -116,6 +140,9 @@ func runC04(r *mc.Run) {
 		w.PKI = w.PKI.WithLeaf(w.Plat)
 		w.Spec.PKI = w.PKI
 		w.Spec.TeeTcbSvn = []byte{4, s1, 5, 1, 1, 1, 1, 1, 1, 1, 1, 1, 1, 1, 1, 2}
+		if qn == 10 || qn == 11 {
+			w.Spec.TeeTcbSvn = []byte{140, s1, 120, 12, 11, 0, 0, 0, 0, 0, 0, 0, 0, 0, 0, 10}
+		}
 		if high {
 			w.Spec.TeeTcbSvn = []byte{0x84, s1, 0x85, 0x81, 0x91, 0xa1, 0xb1, 0xc1, 0xd1, 0xe1, 0xf1, 0x89, 0x9a, 0xab, 0xbc, 0x82}
 		}
@@ -357,13 +384,13 @@ func runC04(r *mc.Run) {
 	// full product of the first two levels (pattern x status) x module status class, for svn1 in {0, 3}
 	type prod struct{ qi, l1p, l1s, l2p, l2s, ms, dates int }
 	var prods []prod
-	for _, qi := range []int{0, 2, 4, 5, 6, 7, 8, 9} {
+	for _, qi := range []int{0, 2, 4, 5, 6, 7, 8, 9, 10, 11} {
 		for l1p := range c04Patterns {
 			for l1s := range statuses {
 				for l2p := range c04Patterns {
 					for l2s := range classes {
 						for _, ms := range []int{0, 4} {
-							if (qi == 0 || qi == 4 || qi == 6 || qi == 8) && ms != 0 {
+							if (qi == 0 || qi == 4 || qi == 6 || qi == 8 || qi == 10) && ms != 0 {
 								continue
 							}
 							prods = append(prods, prod{qi, l1p, l1s, l2p, l2s, ms, 0})
